@@ -136,6 +136,13 @@ static void finish(const char * how, int code)
     if (tf) fflush(tf);
 }
 
+#include "emit.h"
+static unsigned int fn_addr[8192], fn_params[8192], fn_count = 0;
+static void func_hook(unsigned int addr, unsigned int params_count)
+{
+    if (fn_count < 8192) { fn_addr[fn_count] = addr; fn_params[fn_count] = params_count; fn_count++; }
+}
+
 static void dump_module(FILE * f, program * prog)
 {
     module * m = prog->module_value;
@@ -163,6 +170,7 @@ static void dump_module(FILE * f, program * prog)
     for (i = 0; i <= m->exctab_value->count; i++)
         fprintf(f, "x %u %u\n", m->exctab_value->tab[i].block_addr, m->exctab_value->tab[i].handler_addr);
     fprintf(f, "entry %u\n", m->code_entry);
+    for (i = 0; i < fn_count; i++) fprintf(f, "fn %u %u\n", fn_addr[i], fn_params[i]);
     if (m->functab_value)
         for (i = 0; i < m->functab_value->size; i++)
         {
@@ -206,7 +214,10 @@ int main(int argc, char ** argv)
         if (rf) fprintf(rf, "precompile %d %d msgs=%u\n", k, r0, preprog[k]->msg_count);
     }
     program * prog = program_new();
+    fn_count = 0;
+    never_verif_func_hook = func_hook;
     ret = file ? nev_compile_file(file, prog) : nev_compile_str(src ? src : "", prog);
+    never_verif_func_hook = NULL;
     if (rf)
     {
         unsigned int q;
